@@ -53,23 +53,23 @@ theorem updateGaps_exc (n t n' o' : Int) (m : Bool) (ht : n ≤ t) (hn' : n' = m
   cases m with
   | false =>
     by_cases hj : n' - n ≥ ((1 : Nat) : Int)
-    · simp only [ugJump, hj, and_self, if_true]
+    · simp only [ugJump_iff, hj, and_self, if_true]
     · have hnt : t = n := by omega
       have hon : o' = n := by omega
       subst hnt
-      simp only [ugJump, ugCreated_iff, hj, and_false, if_false, Bool.false_eq_true, List.length_cons,
+      simp only [ugJump_iff, ugCreated_iff, hj, and_false, if_false, Bool.false_eq_true, List.length_cons,
         List.length_nil, not_false_eq_true, true_and, false_and]
       have h1 : ¬ (t > t + 1) := by omega
       simp only [h1, if_false, hon]
-      simp [cleanupGaps, sortGaps, insertGap, cleanupLoop, clOutdated]
+      simp [cleanupGaps, sortGaps, insertGap, cleanupLoop, clOutdated_iff]
   | true =>
     have hot : o' = t := by omega
-    simp only [ugMissingStart, ugMissingEnd, Bool.true_eq_false, false_and, if_false, if_true, hot,
+    simp only [ugMissingStart_eq, ugMissingEnd_eq, Bool.true_eq_false, false_and, if_false, if_true, hot,
       List.nil_append, List.cons_append]
     have hle : n ≤ min (n + 1) t := by omega
     by_cases hlt : min (n + 1) t < t
-    · simp [cleanupGaps, sortGaps, insertGap, cleanupLoop, clOutdated, clRolled, hle, ht, hlt]
-    · simp [cleanupGaps, sortGaps, insertGap, cleanupLoop, clOutdated, clRolled, hle, ht, hlt]
+    · simp [cleanupGaps, sortGaps, insertGap, cleanupLoop, clOutdated_iff, clRolled_iff, hle, ht, hlt]
+    · simp [cleanupGaps, sortGaps, insertGap, cleanupLoop, clOutdated_iff, clRolled_iff, hle, ht, hlt]
 
 /-! ### State invariant -/
 
@@ -97,7 +97,7 @@ theorem Inv.init {α : Type} (buffer : List (Option α)) (h : 1 ≤ buffer.lengt
   valid := fun n hn => by simp [State.init] at hn
 
 theorem oldestOf_eq (cap : Nat) (n : Int) : oldestOf cap n = n - ((cap : Int) - 1) := by
-  simp [oldestOf, updOldest]
+  simp [oldestOf, updOldest_eq]
 
 /-- `updateSlot` on a buffer that already holds a newest slot `n`. -/
 theorem updateSlot_some {α : Type} (s : State α) (t : Int) (v : Option α) (n : Int) (hn : s.newest = some n) :
@@ -108,7 +108,7 @@ theorem updateSlot_some {α : Type} (s : State α) (t : Int) (v : Option α) (n 
                 gaps := updateGaps s.cap s.gaps t n (max n t) (max n t - ((s.cap : Int) - 1)) v.isNone
                 newest := some (max n t) }, false) := by
   unfold updateSlot
-  simp only [hn, updReject_iff, Option.isNone_some, and_true, oldestOf_eq, updNewest]
+  simp only [hn, updReject_iff, Option.isNone_some, and_true, oldestOf_eq, updNewest_eq]
 
 /-- `updateSlot` on the fresh buffer (`_TIMESTAMP_MIN` represented by `t - cap`). -/
 theorem updateSlot_none {α : Type} (s : State α) (t : Int) (v : Option α) (hn : s.newest = none) :
@@ -118,7 +118,7 @@ theorem updateSlot_none {α : Type} (s : State α) (t : Int) (v : Option α) (hn
           gaps := updateGaps s.cap s.gaps t (t - s.cap) (max (t - s.cap) t) (max (t - s.cap) t - ((s.cap : Int) - 1)) v.isNone
           newest := some (max (t - s.cap) t) }, false) := by
   unfold updateSlot
-  simp only [hn, updReject_iff, Option.isNone_none, oldestOf_eq, updNewest]
+  simp only [hn, updReject_iff, Option.isNone_none, oldestOf_eq, updNewest_eq]
   simp
 
 /-- Was the sample rejected?  Exactly when it is older than the window. -/
